@@ -89,8 +89,8 @@ PLAN["C06"] = {
     "assumptions": COMMON_ASSUMPTIONS + ["states are numbered 0..m-1 as the library's loaders produce them; a sparse-numbering sub-check is run separately"],
     "claim": "Every automaton of the finite domains over every small ranked alphabet and registration order.",
     "technique": "bounded exhaustive enumeration of automata x alphabets x registration orders against reference product-emptiness and universality",
-    "quick": [("rel", "c06.n2sAk2"), ("rel", "c06.n2sLk4"), ("rel", "c06.n2sAFk4"), ("rel", "c06.n2s2k4"), ("rel", "c06.n2s3k3"), ("rel", "c06.n2ahk3"), ("rel", "c06.n2afhk3"), ("rel", "c06.sparse.n2s2k3")],
-    "thorough": [("rel", "c06.n2sAk2"), ("rel", "c06.n2sLk4"), ("rel", "c06.n2sAFk4"), ("rel", "c06.n2s2k5"), ("rel", "c06.n2s3k4"), ("rel", "c06.n3agk3"), ("rel", "c06.n2ahk3"), ("rel", "c06.n2afhk3"), ("rel", "c06.sparse.n2s2k3")],
+    "quick": [("rel", "c06.n2sAk2"), ("rel", "c06.n2sLk4"), ("rel", "c06.n2sAFk4"), ("rel", "c06.n2s2k4"), ("rel", "c06.n2s3k3"), ("rel", "c06.n2ahk3"), ("rel", "c06.n2afhk3"), ("rel", "c06.n3agk3"), ("rel", "c06.sparse.n2s2k3"), ("rel", "c06.sparse.n3s2k3")],
+    "thorough": [("rel", "c06.n2sAk2"), ("rel", "c06.n2sLk4"), ("rel", "c06.n2sAFk4"), ("rel", "c06.n2s2k5"), ("rel", "c06.n2s3k4"), ("rel", "c06.n3agk3"), ("rel", "c06.n2ahk3"), ("rel", "c06.n2afhk3"), ("rel", "c06.n3s2k4"), ("rel", "c06.n3s3pk4"), ("rel", "c06.n4agk3"), ("rel", "c06.n3afhk3"), ("rel", "c06.sparse.n2s2k3"), ("rel", "c06.sparse.n3s2k3")],
     "require": {"all": ["A_universal", "A_not_universal", "A_empty", "class_unused_registered_symbol"]},
 }
 
@@ -241,7 +241,7 @@ PLAN["C07"] = {
     "claim": "Every pair of the finite domains through every implemented BDD inclusion selection in both encodings; exhaustive within bounds.",
     "technique": "bounded exhaustive enumeration of automata pairs x BDD encodings x InclParam configurations against a reference subset construction",
     "quick": [("rel", "c07.unimpl"), ("rel", "c07.n2s2k2"), ("rel", "c07.n2s3k2"), ("rel", "c07.trim.n2s2.a3b3"), ("rel", "c07.trim.n3s2.a2b3"), ("rel", "c07.trim.n3ah.a2b3")],   # c07.ov.n2k3 (one symbol name, two arities) is in the thorough tier
-    "thorough": [("rel", "c07.unimpl"), ("rel", "c07.n2s2k3"), ("rel", "c07.n2s3k2"), ("rel", "c07.trim.n2s2.a4b4"), ("rel", "c07.trim.n3s2.a3b3"), ("rel", "c07.trim.n3s2.a3b4"), ("rel", "c07.trim.n2s3.a4b4"), ("rel", "c07.trim.n3ah.a2b3"), ("rel", "c07.trim.n3ah.a3b4"), ("rel", "c07.trim.n4ag.a2b4"), ("rel", "c07.ov.n2k3")],
+    "thorough": [("rel", "c07.unimpl"), ("rel", "c07.n2s2k3"), ("rel", "c07.n2s3k2"), ("rel", "c07.trim.n2s2.a4b4"), ("rel", "c07.trim.n3s2.a3b3"), ("rel", "c07.trim.n3s2.a3b4"), ("rel", "c07.trim.n2s3.a4b4"), ("rel", "c07.trim.n3ah.a2b3"), ("rel", "c07.trim.n3ah.a3b3"), ("rel", "c07.trim.n4ag.a2b4"), ("rel", "c07.ov.n2k3")],
     "require": {"all": ["expect_included", "expect_not_included", "nonemptyA_included", "class_binary_rules_both_trimmed", "unimpl_calls"]},
 }
 
